@@ -49,6 +49,15 @@ func (r *rule) bad(key, pos, detail string, path ...string) {
 	r.add(key, pos, vViolation, detail, path...)
 }
 func (r *rule) undecided(key, pos, detail string) { r.add(key, pos, vUndecided, detail) }
+func (r *rule) violated() int {
+	n := 0
+	for _, in := range r.Instances {
+		if in.Verdict == vViolation {
+			n++
+		}
+	}
+	return n
+}
 func (r *rule) note(format string, args ...any) {
 	r.Analysed = append(r.Analysed, fmt.Sprintf(format, args...))
 }
